@@ -13,7 +13,9 @@ let acn_op (args : string list) : string =
     let ev_s e = match e with
       | AcnEvData u -> "d" ^ ni u
       | EvPage (cid, page, last, us) ->
-        "p" ^ hex_of_bytes cid ^ "." ^ ni page ^ "." ^ ni last ^ "." ^ String.concat "_" (List.map ni us) in
+        "p" ^ hex_of_bytes cid ^ "." ^ ni page ^ "." ^ ni last ^ "." ^ String.concat "_" (List.map ni us)
+      | EvRdm133 (seq, ep, d) -> "r" ^ string_of_n seq ^ "." ^ ni ep ^ "." ^ hex_of_bytes d
+      | EvLlrp (cid, tn, d) -> "l" ^ hex_of_bytes cid ^ "." ^ string_of_n tn ^ "." ^ hex_of_bytes d in
     (try List.iter (fun dg ->
       let buf, n = mkbuf (int_of_n aCN_MAX_DATAGRAM) (bytes_of_hex dg) in
       match run buf (acn_handle ign n !hs) with
@@ -22,7 +24,9 @@ let acn_op (args : string list) : string =
         let changed = (hs' <> !hs) in
         hs := hs';
         let evs = List.rev evs in
-        t.cls <- (if List.exists (fun e -> match e with EvPage _ -> true | _ -> false) evs then "page"
+        t.cls <- (if List.exists (fun e -> match e with EvRdm133 _ -> true | _ -> false) evs then "e133"
+                  else if List.exists (fun e -> match e with EvLlrp _ -> true | _ -> false) evs then "llrp"
+                  else if List.exists (fun e -> match e with EvPage _ -> true | _ -> false) evs then "page"
                   else if evs <> [] then "data" else if changed then "state" else "drop") :: t.cls;
         let es = if evs = [] then "-" else String.concat "+" (List.map ev_s evs) in
         let src_s s = hex_of_bytes s.s_cid ^ "." ^ ni s.s_seq ^ "." ^ dbuf_s s.s_buf in
